@@ -1,5 +1,8 @@
 package main
 
-import "verif/h/alncheck"
+import (
+	"verif/h/alncheck"
+	_ "verif/h/duoc"
+)
 
 func main() { alncheck.Main("C08") }
